@@ -195,3 +195,36 @@ func VerifFailureBlockedWriter() {
 	verifAssert(verifGoroutines() == 0, "no goroutine is left blocked")
 	verifReach("writer-released")
 }
+
+// VerifFailureBigBatch: a batch larger than the send queue (3 calls, queue size 2) is handed to
+// a real region client while the connection is being closed (every interleaving within the
+// delay bound): however the batch travels to the writer, every call is completed exactly once
+// with a connection-level error and nothing stays blocked.
+func VerifFailureBigBatch() {
+	conn := &vConn{readStall: make(chan struct{})}
+	dialer := func(ctx context.Context, network, addr string) (net.Conn, error) { return conn, nil }
+	rc := NewClient("rs:1", RegionClient, 2, 0, "user", 0, nil, dialer, vLogger())
+	c := rc.(*client)
+	c.readTimeout = 1000000000
+	verifAssert(c.Dial(context.Background()) == nil, "dial")
+	reg := vReg("t,,1")
+	ctx := context.Background()
+	calls := []hrpc.Call{vPut(ctx, "a", reg), vPut(ctx, "b", reg), vPut(ctx, "c", reg)}
+	queued := make(chan struct{})
+	go func() {
+		c.QueueBatch(ctx, calls)
+		close(queued)
+	}()
+	go c.Close()
+	<-queued
+	verifQuiesce()
+	c.Close()
+	verifQuiesce()
+	for _, cl := range calls {
+		verifAssert(vResults(cl) == 1, "every call of the batch is completed exactly once")
+		r := <-cl.ResultChan()
+		verifAssert(r.Msg == nil && (vIsServerError(r.Error) || r.Error == ErrClientClosed), "with a connection-level error")
+	}
+	verifAssert(verifGoroutines() == 0, "no goroutine of the region client is left running or blocked")
+	verifReach("big-batch")
+}
